@@ -188,6 +188,14 @@ _MORE4 = {
     'C11': ' A share step puts the same event object into two positions.',
     'C14': ' A quarter of the random inputs pass through API steps first, including calls widened to several arguments; a deterministic table puts multi-argument calls under plain and negated quantifiers (1 440 derived inputs).',
 }
+_MORE5 = {
+    'C16': ' A field table checks that equality takes every constructor field but metadata into account (a copy differing in one field alone is unequal; differing in metadata alone is equal and hashes alike).',
+    'C17': ' Enumerated declarations include wrong-kind values that are equal to well-kinded ones.',
+    'C18': ' Members with two faults of different kinds must reject the file with the class they raise on their own.',
+}
+for _pid, _t in _MORE5.items():
+    EXTRA.setdefault(_pid, dict(level='', technique=''))
+    EXTRA[_pid]['level'] += _t
 for _pid, _t in _MORE4.items():
     EXTRA.setdefault(_pid, dict(level='', technique=''))
     EXTRA[_pid]['level'] += _t
